@@ -1638,6 +1638,14 @@ class Interp:
                 if not args:
                     return Unk('.to()', e)
                 uu = self._as_arr(args[0])
+                if 'equivalencies' in kw:
+                    # wavelength <-> frequency (and the like): not the same physical value; an involution
+                    inner = recv.poly
+                    if inner.is_monomial():
+                        (m_, c_), = inner.t.items()
+                        if c_ == 1 and len(m_) == 1 and m_[0][1] == 1 and m_[0][0][0] == 'fn' and m_[0][0][1] == 'spectral':
+                            return recv.with_(poly=Poly.from_key(m_[0][0][2][1]), unit=uu.poly if isinstance(uu, Arr) else None)
+                    return recv.with_(poly=alg.mk_fn('spectral', P(inner)), unit=uu.poly if isinstance(uu, Arr) else None)
                 if isinstance(uu, Arr) and recv.ndim == 0 and recv.unit is not None and recv.poly == recv.unit and not recv.poly.is_const():
                     # unit.to(other_unit): the dimensionless conversion factor
                     return Arr((), recv.poly * uu.poly.pow(-1), unit=num(1))
